@@ -97,7 +97,7 @@ GDrawEach == /\ ~drawn /\ GenMode = "each"
 \* "each" also: directed sequences that exercise the recorded findings X03-1, X03-2, X03-3 in every run
 NoFault == [cmd |-> 0, at |-> 0, kind |-> "write"]
 Directed == <<
-  [cmds |-> <<[Create(<<"S1:a64">>, <<>>) EXCEPT !.dplat = "linux/amd64/bad!">>, fault |-> NoFault],
+  [cmds |-> <<[Create(<<"S1:a64">>, <<>>) EXCEPT !.dplat = "linux/amd64/bad!"]>>, fault |-> NoFault],
   [cmds |-> <<[Create(<<"S1:a64">>, <<>>) EXCEPT !.digs = <<"armv7">>], Add(<<"S1:arm64">>, <<>>)>>,
    fault |-> [cmd |-> 2, at |-> 1, kind |-> "read"]],
   [cmds |-> <<[Create(<<"S1:armv7">>, <<>>) EXCEPT !.dann = <<KV("b", "")>>],
